@@ -79,7 +79,7 @@ class C01(Prop):
         return True
 
     def generate(self, rng, tier):
-        n = 700 if tier == "quick" else 8000
+        n = 450 if tier == "quick" else 8000
         cases = []
         while len(cases) < n:
             sep = rng.choice(SEPS)
